@@ -26,7 +26,12 @@ RULE = (
     "size); second pass: the inner block loop of make_train_sets is entered by lowering its literal block size, the "
     "reader's real chunk lengths are fed to the two-chunker model of _predict, different spectra sharing the first two "
     "key columns are generated, the key clauses use the generated tables (not the parsed dataset), psms is passed as "
-    "list / tuple / bare dataset, rng as int / Generator; "
+    "list / tuple / bare dataset, rng as int / Generator; third pass: inside the real run the labels "
+    "get_index_values collects, the per-fold score arrays and the held-out folds handed to make_train_sets are "
+    "recorded and compared with the model of the order-restoring steps (foldLabels, argsort + fancy indexing, routeA, "
+    "predictTwoA), the whole run with `brewRunA` (same error kind when brew refuses: features / IndexError / "
+    "rng.choice / np.hstack of an empty fold), jointly modelled files with different feature names and files with one "
+    "spectrum holding ~80 % of the PSMs (empty middle fold) are generated; "
     "distinct = distinct (hash vector structure, folds, cap, sizes); non-trivial = some spectrum has >= 2 PSMs"
 )
 
@@ -70,6 +75,16 @@ def gen_case(rng):
     case["rng_form"] = sub.choice(["int", "int", "generator"])
     if case["rescore"] is None and sub.random() < 0.15:
         case["rescore"] = sub.choice(["nofold-one", "nofold-all"])
+    # ---- third pass (own generator again: the case stream of the earlier passes is unchanged)
+    sub3 = random.Random(case["data_seed"] ^ 0x2545F491)
+    # one of several jointly modelled files names a feature column differently (brew.py:126-129)
+    case["feat_mismatch"] = nfiles > 1 and sub3.random() < 0.08
+    # one spectrum holding ~80 % of the PSMs of a file: both cuts of a 3-fold split snap to the same group boundary,
+    # the middle fold is empty (np.hstack([]) in _predict) unless the big group is the last in hash order (IndexError)
+    case["skew"] = sub3.random() < 0.07
+    if case["skew"]:
+        case.update(n_spectra=[6] * nfiles, max_per=3, folds=3, cap=None, rescore=None, few_spectra=False,
+                    feat_mismatch=False, collide=False)
     return case
 
 
@@ -110,6 +125,72 @@ def block_size(cr):
         B.make_train_sets = fn
 
 
+class PredictObserver:
+    """records, inside the REAL run, what `_predict` collects: the labels `get_index_values` appends to `orig_idx`
+    (per collection and fold), the score arrays `predict_fold` appends to `fold_scores`, and the held-out folds
+    `brew` hands to `make_train_sets` (`test_folds_idx`, with the in-fold shuffle).  The three functions are
+    module-level names of mokapot.brew that `brew`/`_predict` look up at call time; each wrapper calls the real
+    function and only keeps references to the lists it was given."""
+
+    def __init__(self):
+        import threading
+        self.lock = threading.Lock()
+        self.orig, self.orig_inner = [], []        # outer `orig_idx` objects (identity) / their inner lists
+        self.fsc, self.fsc_inner = [], []          # outer `fold_scores` objects / their inner lists
+        self.test_idx = None
+        self.installed = False
+
+    def _inner(self, outers, inners, obj):
+        with self.lock:
+            for o, inn in zip(outers, inners):
+                if o is obj:
+                    return inn
+            outers.append(obj)
+            inners.append(list(obj))               # the inner lists themselves (the code pops them off later)
+            return inners[-1]
+
+    @contextlib.contextmanager
+    def install(self):
+        B = P.mod("mokapot.brew")
+        names = ("get_index_values", "predict_fold", "make_train_sets")
+        if not all(callable(getattr(B, n, None)) for n in names):
+            yield self
+            return
+        real = {n: getattr(B, n) for n in names}
+        obs = self
+
+        def get_index_values(df, col_name, val, orig_idx):
+            obs._inner(obs.orig, obs.orig_inner, orig_idx)
+            return real["get_index_values"](df, col_name, val, orig_idx)
+
+        def predict_fold(model, fold, psms, scores):
+            obs._inner(obs.fsc, obs.fsc_inner, scores)
+            return real["predict_fold"](model=model, fold=fold, psms=psms, scores=scores)
+
+        def make_train_sets(*a, **kw):
+            ti = kw.get("test_idx", a[0] if a else None)
+            try:
+                obs.test_idx = [[[int(x) for x in fold] for fold in file_] for file_ in ti]
+            except Exception:
+                obs.test_idx = None
+            return real["make_train_sets"](*a, **kw)
+
+        B.get_index_values, B.predict_fold, B.make_train_sets = get_index_values, predict_fold, make_train_sets
+        self.installed = True
+        try:
+            yield self
+        finally:
+            for n in names:
+                setattr(B, n, real[n])
+
+    def labels(self):
+        return [[[int(x) for x in fold] for fold in inn] for inn in self.orig_inner]
+
+    def fold_scores(self):
+        return [[np.concatenate([np.asarray(a).ravel() for a in fold]) if fold else np.zeros(0) for fold in inn]
+                for inn in self.fsc_inner]
+
+
 KEY_COLUMNS = ("filename", "ScanNr", "ret_time", "ExpMass")   # the order read_pin gives the spectrum columns
 
 
@@ -139,11 +220,19 @@ def run_case(chk, case):
                                        label_enc="pm1", optional=case["optional"], signal=4.0)
             df["rowid"] = np.arange(off, off + len(df))
             df["SpecId"] = [f"f{k}_{i}" for i in range(len(df))]
+            if case.get("skew"):
+                import pandas as pd
+                big = df[df["ScanNr"] == df["ScanNr"].iloc[0]]
+                df = pd.concat([df] + [big] * (4 * len(df) // max(1, len(big)) + 1), ignore_index=True)
+                df["rowid"] = np.arange(off, off + len(df))
+                df["SpecId"] = [f"f{k}_{i}" for i in range(len(df))]
             if case.get("collide"):
                 ncollide += share_first_two_key_columns(r, df)
             offs.append(off)
             off += len(df)
             tabs.append(df)
+            if case.get("feat_mismatch") and k == case["nfiles"] - 1:
+                df = df.rename(columns={"feat1": "featX"})
             p = mkdata.write_table(df, d / f"in{k}.{case['fmt']}", row_group_size=r.choice([None, 7, 50]))
             dss.append(mkdata.read_dataset(p))
             paths.append(p)
@@ -168,9 +257,22 @@ def run_case(chk, case):
         psms_arg = {"list": dss, "tuple": tuple(dss), "bare": dss[0]}[case.get("psms_form", "list")]
         rng_arg = np.random.default_rng(case["seed"]) if case.get("rng_form") == "generator" else case["seed"]
         lowered = False
+        obs = PredictObserver()
+        feats = [[str(c) for c in ds.feature_columns] for ds in dss]
+        cra, cpa = csize(case["cread"], nmax), csize(case["cpred"], nmax)
+
+        def whole_run_model_rejects(kind):
+            # the whole-run model with every step as the code has it must refuse with the same kind of error
+            rr = common.driver_batch([req("brewruna", case["folds"], cap_arg(cap), cra, cpa, hashes, feats)])[0].strip()
+            chk.count("brewruna", kind)
+            if rr != kind:
+                chk.corr_break("brewruna", dict(case=case, impl=kind, model=rr[:200],
+                                                hashes=hashes if ntot < 80 else "omitted"))
+                return False
+            return True
         try:
             with P.chunk_sizes(read_all=csize(case["cread"], nmax), predict=csize(case["cpred"], nmax)), \
-                    block_size(crange) as lowered:
+                    block_size(crange) as lowered, obs.install():
                 _, models, scores, descs = mokapot.brew(psms_arg, model, test_fdr=0.5, folds=case["folds"],
                                                         max_workers=case["workers"], rng=rng_arg,
                                                         subset_max_train=cap)
@@ -178,8 +280,15 @@ def run_case(chk, case):
         except IndexError:
             outcome = "reject-index"
         except ValueError as e:
+            if "must use the same features" in str(e):
+                chk.count("features", "differ")
+                if len(set(map(frozenset, feats))) > 1:
+                    chk.reject("collections-with-different-features")
+                    whole_run_model_rejects("reject-ValueError-features")
+                    return
             if "Cannot take a larger sample" in str(e):
                 chk.reject("cap-larger-than-file-share")
+                whole_run_model_rejects("reject-ValueError-choice")
                 check_choice_reject(chk, case, hashes, [len(t) for t in tabs], cap, nmax, crange if lowered else None)
                 return
             if "PSMs were detected" in str(e) or "PSMs were available" in str(e):
@@ -190,6 +299,10 @@ def run_case(chk, case):
                 resp = common.driver_batch([req("split", case["folds"], h) for h in hashes])
                 if any("[]" in r_.replace(" ", "") or r_.strip() == "reject-index" for r_ in resp):
                     chk.reject("empty-fold-too-few-spectrum-groups")
+                    # np.hstack([]) in _predict: the model of _predict refuses for the same reason (unless _split of
+                    # a later collection would already have refused in the model: then brew could not get here)
+                    if not any(r_.strip() == "reject-index" for r_ in resp):
+                        whole_run_model_rejects("reject-hstack")
                     return
             chk.spec_violation("exception:ValueError", dict(case=case, error=str(e)[:300], clause="brew raised"))
             return
@@ -212,6 +325,7 @@ def run_case(chk, case):
                   ("literal-absent" if not lowered else
                    ("entered" if any(len(t) > crange for t in tabs) else "one-block")))
         chk.count("block-size", str(case.get("crange")))
+        chk.count("skewed-spectrum", "yes" if case.get("skew") else "no")
         chk.count("shared-first-two-key-columns", "none" if not ncollide else "some-spectra")
         chk.count("psms-form", case.get("psms_form", "list")); chk.count("rng-form", case.get("rng_form", "int"))
         chk.count("parsed-spectra-frame", "as-generated" if frame_ok else "differs")
@@ -222,6 +336,7 @@ def run_case(chk, case):
             chk.case(None, key, sample=dict(case={k: str(v) for k, v in case.items()}, outcome=outcome))
             if model_reject:
                 chk.reject("too-few-spectrum-groups-for-folds")
+                whole_run_model_rejects("reject-IndexError")
                 rr = common.driver_batch([req("brewrun", case["folds"], cap_arg(cap), csize(case["cread"], nmax),
                                               csize(case["cpred"], nmax), hashes)])[0].strip()
                 chk.count("brewrun", "reject")
@@ -316,6 +431,8 @@ def run_case(chk, case):
         if not compare_train_model(chk, case, info, hashes, [len(t) for t in tabs], cap, nmax, impl_folds, impl_trains,
                                    impl_routing, train_ids, crange if lowered else None, dss):
             return
+        if not compare_restore(chk, case, info, obs, scores, hashes, feats, cap, cra, cpa, impl_routing, train_ids, dss):
+            return
         # ---- brew() again with the models just returned
         rescore(chk, case, info, paths, run, models, scores, fold_of_tag, hashes, impl_trains, cap, nmax)
 
@@ -377,6 +494,7 @@ def check_choice_reject(chk, case, hashes, sizes, cap, nmax, crange=None):
 
 
 MAX_READER_CHUNKS = 60
+_READER_MEMO = {}
 
 
 def reader_chunks(ds, n, c):
@@ -386,6 +504,9 @@ def reader_chunks(ds, n, c):
     of one or two rows: reading them a second time costs as much as the brew call)"""
     if n > MAX_READER_CHUNKS * c:
         return None
+    memo = _READER_MEMO.get((id(ds), c))
+    if memo is not None and memo[0] is ds:
+        return memo[1]
     lens, labels_ok, off = [], True, 0
     for ch in ds.read_data(columns=ds.columns, chunk_size=c):
         if list(ch.index) != list(range(off, off + len(ch))):
@@ -393,6 +514,9 @@ def reader_chunks(ds, n, c):
         lens.append(len(ch))
         off += len(ch)
     cc = [len(x) for x in P.mod("mokapot.utils").create_chunks(data=np.arange(off), chunk_size=c)]
+    if len(_READER_MEMO) > 8:
+        _READER_MEMO.clear()
+    _READER_MEMO[(id(ds), c)] = (ds, (lens, labels_ok, cc))      # (the third pass asks for the same chunks again)
     return lens, labels_ok, cc
 
 
@@ -497,6 +621,99 @@ def compare_train_model(chk, case, info, hashes, sizes, cap, nmax, impl_folds, i
         chk.corr_break("brewrun", dict(info, **bad))
         return False
     return True
+
+
+def compare_restore(chk, case, info, obs, scores, hashes, feats, cap, cra, cpa, impl_routing, train_ids, dss):
+    """third pass: the order-restoring steps of `brew` as the code computes them.  What the REAL `_predict` collected
+    (labels per fold, stacked scores per fold) and the REAL held-out folds are compared with `foldLabels`,
+    `gather`/`argsortStable` (op `restoreorder`: fed with the real labels, it must reproduce the real final score
+    vector from the real per-fold scores), `routeA` (real folds -> the routing read from the scores),
+    `predictTwoA` and the whole-run model `brewRunA`.  Returns False when something was reported."""
+    nf, folds = case["nfiles"], case["folds"]
+    labels, fsc = obs.labels(), obs.fold_scores()
+    observed = obs.installed and len(labels) == nf and len(fsc) == nf and obs.test_idx is not None and \
+        len(obs.test_idx) == nf
+    chk.count("predict-observed", "yes" if observed else ("no-hooks" if not obs.installed else "partly"))
+    reqs = [req("brewruna", folds, cap_arg(cap), cra, cpa, hashes, feats)]
+    rdr = []
+    if observed:
+        for k, ds in enumerate(dss):
+            x = reader_chunks(ds, len(impl_routing[k]), cpa)
+            rdr.append(x)
+            reqs.append(req("restoreorder", labels[k]))
+            reqs.append(req("routea", obs.test_idx[k]))
+            if x is not None:
+                reqs.append(req("foldlabels", x[0], cpa, folds, impl_routing[k]))
+                reqs.append(req("predicttwoa", x[0], cpa, folds, impl_routing[k]))
+    r = common.driver_batch(reqs)
+    # ---- whole run, every step as the code has it
+    br = dec(r[0])
+    if not isinstance(br, list):
+        chk.count("brewruna", str(br))
+        chk.corr_break("brewruna", dict(info, impl="scores", model=str(br)))
+        return False
+    chk.count("brewruna", "ok")
+    models_m, masks_m, rows_m = br
+    bad = None
+    if len(models_m) != folds:
+        bad = dict(model_models=len(models_m))
+    for f, ent in enumerate(models_m):
+        if bad is None and (int(ent[0]) != f + 1 or len(ent[1]) != len(train_ids[f])):
+            bad = dict(fold=f, model_fold_number=int(ent[0]), model_train=len(ent[1]), impl_train=len(train_ids[f]))
+    off = 0
+    for k in range(nf):
+        if bad is None:
+            mk, rk = [int(x) for x in masks_m[k]], [int(x) for x in rows_m[k]]
+            if rk != list(range(off, off + len(impl_routing[k]))):
+                bad = dict(file=k, why="model scores are not those of the rows in input order")
+            elif len(mk) != len(impl_routing[k]) or any(not (m >> f) & 1 for m, f in zip(mk, impl_routing[k])):
+                bad = dict(file=k, why="a row is scored by a model other than the one the real run used",
+                           impl_routing=impl_routing[k][:60], model_masks=mk[:60])
+            elif cap is None and any(m != 1 << f for m, f in zip(mk, impl_routing[k])):
+                bad = dict(file=k, why="model score produced by more than one training table without sub-sampling")
+        off += len(impl_routing[k])
+    if bad is not None:
+        chk.corr_break("brewruna", dict(info, **bad))
+        return False
+    if not observed:
+        return True
+    # ---- per collection: labels, argsort + fancy indexing, routing vector
+    j = 1
+    for k in range(nf):
+        final = np.asarray(scores[k]).ravel()
+        tok = dec(r[j]); ra = dec(r[j + 1]); j += 2
+        fl = pa = None
+        if rdr[k] is not None:
+            fl, pa = dec(r[j]), dec(r[j + 1]); j += 2
+        bad = None
+        n = len(impl_routing[k])
+        if [len(x) for x in labels[k]] != [len(x) for x in fsc[k]]:
+            bad = ("restoreorder", "labels and scores collected per fold differ in number")
+        elif not isinstance(tok, list) or len(tok) != n:
+            bad = ("restoreorder", f"model restores {len(tok) if isinstance(tok, list) else tok} positions of {n}")
+        else:
+            exp = [fsc[k][int(t) // 1000000][int(t) % 1000000] for t in tok]
+            if not np.array_equal(np.asarray(exp, dtype=final.dtype), final):
+                bad = ("restoreorder", "concatenate(scores)[argsort(labels)] of the model differs from the returned scores")
+        if bad is None and [int(x) for x in _flat(ra)] != impl_routing[k]:
+            bad = ("routea", "routing vector of the real folds differs from the models that scored the rows")
+        if bad is None and fl is not None:
+            if not isinstance(fl, list) or [[int(x) for x in _flat(f_)] for f_ in fl] != labels[k]:
+                bad = ("foldlabels", "labels collected per fold differ from get_index_values' "
+                       f"(model {str(fl)[:120]} / real {str(labels[k])[:120]})")
+            elif not isinstance(pa, list) or [int(x) for x in pa] != [f * 1000000 + p_ for p_, f in enumerate(impl_routing[k])]:
+                bad = ("predicttwoa", f"model of _predict (hstack/argsort) differs: {str(pa)[:120]}")
+        chk.count("restore", "ok" if bad is None else bad[0])
+        chk.count("prediction-blocks", "not-reread" if rdr[k] is None else
+                  ("1" if len(rdr[k][0]) == 1 else ("2-3" if len(rdr[k][0]) <= 3 else ">3")))
+        if bad is not None:
+            chk.corr_break(bad[0], dict(info, file=k, why=bad[1]))
+            return False
+    return True
+
+
+def _flat(v):
+    return v if isinstance(v, list) else [v]
 
 
 RESCORE_ERR = {"reject-ValueError": (ValueError, "must match the number of folds"),
@@ -641,7 +858,8 @@ def search(chk):
 
 
 def main(chk, args):
-    build = common.build_and_audit("C02", extra_targets=["MokapotVerif.Mutants.Brew", "MokapotVerif.Mutants.BrewBlocks"])
+    build = common.build_and_audit("C02", extra_targets=["MokapotVerif.Mutants.Brew", "MokapotVerif.Mutants.BrewBlocks",
+                                                          "MokapotVerif.Mutants.BrewRestore"])
     if not build.driver_ok:
         chk.finish(build, RULE)
     predict_sweep(chk)
@@ -650,7 +868,8 @@ def main(chk, args):
         run_case(chk, gen_case(chk.rng))
     lc = None
     if chk.tier == "thorough":
-        lcs = [common.leanchecker("C02"), common.leanchecker("C02Multi"), common.leanchecker("C02Blocks")]
+        lcs = [common.leanchecker("C02"), common.leanchecker("C02Multi"), common.leanchecker("C02Blocks"),
+               common.leanchecker("C02Restore")]
         lc = (all(x[0] for x in lcs), "\n".join(x[1] for x in lcs))
     chk.assumptions += [
         "the recording estimator observes the rows handed to Model.fit through the first scoring call of the "
@@ -668,6 +887,10 @@ def main(chk, args):
         "only its equalities, decide the folds)",
         "predicttwo: the chunk lengths and row labels are those a second pass of the real reader over the same file "
         "delivers (the reader is deterministic)",
+        "third pass: orig_idx / fold_scores / test_folds_idx of the real run are observed by wrapping the module-level "
+        "functions get_index_values, predict_fold and make_train_sets of mokapot.brew (each wrapper calls the real "
+        "function unchanged; histogram `predict-observed`); np.argsort on distinct labels has one possible result, "
+        "the driver's insertion sort gives it (C02_argsort_restores_order holds for any argsort)",
     ]
     chk.finish(build, RULE, search=search, lc=lc,
                trusted_extra=["numpy argsort/unique/searchsorted/split/Generator, joblib, pandas concat/reindex"])
